@@ -188,6 +188,10 @@ def check_table(jumps, M, w, cut, D, order=0, SITE_FRAC=SITE_FRAC):
         c = run_collective(jumps, M, w, cut, order, SITE_FRAC)
     except Exception as e:  # noqa: BLE001
         return [(f'collective-raise-{type(e).__name__}', f'{e}')], ('raise',)
+    try:
+        first_read = (c.n_coll_jumps, c.n_solo_jumps) if (w + len(jumps)) % 2 else (c.n_solo_jumps, c.n_coll_jumps)
+    except Exception as e:  # noqa: BLE001
+        return [(f'result-attribute-raise-{type(e).__name__}', f'{e}')], ('raise-attr',)
     got_list = [frozenset((row_of(a), row_of(b))) for a, b in c.collective]
     got = set(got_list)
     if len(got_list) != len(got):
